@@ -58,7 +58,10 @@ static void fill_payload(uint8_t *p, uint32_t L, uint32_t i, uint32_t k, int pay
 	else for (uint32_t b = 0; b < L; b++) p[b] = (uint8_t)rng_u64(rng);
 	if (payload == PAY_SPARSE) {
 		/* structured contents: whole symbols of zeros, zero 64-bit words, zero bytes, a zero tail (padding), two equal symbols */
-		switch (rng_below(rng, 6)) {
+		switch (rng_below(rng, 7)) {
+		case 5: for (uint32_t b = 0; b + 16 <= L; b += 16) {      /* 16-byte blocks whose 64-bit halves are x,-x / x,x / x,~x */
+				uint64_t x = rng_u64(rng), y = rng_below(rng, 3) == 0 ? (uint64_t)0 - x : rng_below(rng, 2) ? x : ~x;
+				memcpy(p + b, &x, 8); memcpy(p + b + 8, &y, 8); } break;
 		case 0: memset(p, 0, L); break;
 		case 1: for (uint32_t b = 0; b < L; b += 8) if (rng_below(rng, 2)) memset(p + b, 0, L - b < 8 ? L - b : 8); break;
 		case 2: for (uint32_t b = 0; b < L; b++) if (rng_below(rng, 3)) p[b] = 0; break;
